@@ -169,7 +169,7 @@ OneofFlagShapes == <<
                         !.sensitive = <<"Root.BranchA", "Root.BranchC">>, !.usfu = TRUE,
                         !.validators = <<[k |-> "Root.BranchA", v |-> <<"1">>]>>, !.planmodifiers = <<[k |-> "Root.BranchB", v |-> <<"2">>]>>]) >>
 
-GenFlagShapes(long) == OneofFlagShapes \o CommentShapes \o FlagShapesQuick \o CustomFlagShapes \o CrossFileFlagShapes \o IndexShapes \o (IF long THEN FlagShapesFull ELSE <<>>)
+GenFlagShapes0(long) == OneofFlagShapes \o CommentShapes \o FlagShapesQuick \o CustomFlagShapes \o CrossFileFlagShapes \o IndexShapes \o (IF long THEN FlagShapesFull ELSE <<>>)
 
 ---------------------------------------------------------------------------
 \* C12: only the selected types, independent of the rest of the request
@@ -571,6 +571,10 @@ GenAddrMixed == <<
         [BaseCfg EXCEPT !.customtypes = <<KV("Root.Sub.Cust", "CustN"), KV("Root.Sub2.Cust", "CustN")>>,
                         !.validators = <<[k |-> "Leaf.Cust", v |-> <<"1">>]>>, !.planmodifiers = <<[k |-> "Root.Sub.Cust", v |-> <<"2">>]>>,
                         !.computed = <<"Root.Sub2.Cust">>, !.sensitive = <<"Leaf.Cust">>, !.usfu = TRUE]) >>
+
+\* the same mixed-key configurations judged for C10 (flags, validators, plan modifiers and the default plan modifier per attribute)
+MixedKeyFlagShapes == [i \in DOMAIN GenAddrMixed |-> [GenAddrMixed[i] EXCEPT !.id = "c10.mix." \o ToString(i), !.run = "c10.mix." \o ToString(i)]]
+GenFlagShapes(long) == MixedKeyFlagShapes \o GenFlagShapes0(long)
 
 GenAddrShapes ==
   <<Shape("c11.base", AddrDesc, BaseCfg)>> \o GenAddrSeparate \o GenAddrMixed
